@@ -195,7 +195,7 @@ check(
 check(
     "C17",
     "JsonDoc.tla pushdown generator (all document shapes to a bound) and CalcExpr.tla (all operator streams over the documented table with their denoted trees, uniqueness TLC-checked); documents vs json.loads, expressions vs the value of the denoted tree, three calculators",
-    "TLC enumerates every RFC 8259 document shape up to 9 (quick) / 11 (thorough) tokens with lexeme lists covering every number production and string escape, and every well-formed calculator operator stream up to 7 / 9 "
+    "TLC enumerates every RFC 8259 document shape up to 9 (quick) / 10 (thorough) tokens with lexeme lists covering every number production and string escape, and every well-formed calculator operator stream up to 7 / 9 "
     "tokens with the tree it denotes under the documented precedence table; each instantiated document must be accepted by both bundled JSON grammars in four modes with a tree that mirrors json.loads and the generator's skeleton, "
     "every proper prefix must be rejected, and all three bundled calculators (imported from a scratch copy whose parsers are regenerated from the current tree) must return the value of the denoted tree or raise where it is undefined.",
     "Trusted: TLC, json.loads (the oracle the statement names), CPython arithmetic. Generation and denotation by TLC; value comparison by the harness.",
